@@ -25,7 +25,7 @@ from elementpath.xpath_nodes import XPathNode, ElementNode, DocumentNode
 
 from elementpath.exceptions import ElementPathTypeError
 from elementpath.helpers import node_position
-from elementpath.xpath_context import XPathSchemaContext
+from elementpath.xpath_context import XPathContext, XPathSchemaContext
 from elementpath.xpath_tokens import XPathToken, NameToken, VariableToken, \
     ContextItemToken, AsteriskToken, ParentShortcutToken
 
@@ -449,6 +449,31 @@ def select__predicate(self: XPathToken, context: ta.ContextType = None) -> Itera
                 yield context.item
         elif self.boolean_value(predicate):
             yield context.item
+
+
+@method('[')
+def select_with_focus__predicate(self: XPathToken, context: XPathContext) \
+        -> Iterator[ta.ItemType]:
+    # A predicate that follows another predicate of a reverse axis step
+    # has context positions assigned in reverse document order too.
+    step = self[0]
+    while step.symbol == '[':
+        step = step[0]
+    if not getattr(step, 'reverse_axis', False):
+        yield from XPathToken.select_with_focus(self, context)
+        return
+
+    status = context.item, context.size, context.position, context.axis
+    results = [x for x in self.select(context)]
+    context.item, context.size, context.position, context.axis = status
+    context.axis = None
+
+    context.size = context.position = len(results)
+    for context.item in results:
+        yield context.item
+        context.position -= 1
+
+    context.item, context.size, context.position, context.axis = status
 
 
 ###
